@@ -166,6 +166,23 @@ fn scratch_one(dag: &[Node], fam: Fam, want: &[H], out: &mut Out, tier: Tier) ->
                 }
             }
         }
+        // the named / textual form is one more conversion path: a program that renders to text which parses
+        // (whether it does is C17's subject) must come back with the root it had
+        if let Ok(commit) = built[n - 1].finalize_types() {
+            let text = simplicity::human_encoding::Forest::from_program(commit).string_serialize();
+            out.transitions += 1;
+            let parsed = match fam {
+                Fam::Core => simplicity::human_encoding::Forest::parse::<simplicity::jet::Core>(&text),
+                Fam::Elements => simplicity::human_encoding::Forest::parse::<simplicity::jet::Elements>(&text),
+            };
+            if let Ok(f) = parsed {
+                if let Some(main) = f.roots().get("main") {
+                    if main.cmr().to_byte_array() != want[n - 1] {
+                        return Err(("cmr:text-round-trip".into(), format!("the program rendered as text and parsed again has root {}, re-hashed {}", main.cmr(), crate::reference::bits::hex(&want[n - 1]))));
+                    }
+                }
+            }
+        }
         Ok(true)
     })?;
     if !ok {
